@@ -56,7 +56,7 @@ ASSUMPTIONS = [
 TRUSTED = [
     "the scripted optimizer plug-in, fault-injecting evaluator and recording observer of harness/props/C14.py",
     "transforms (variable / objective / constraint scalers), the number of objectives, the position of the NaN inside a failed row, "
-    "the realization weights, metadata, explicit start vectors, a variable mask, unused filter entries and output redirection are "
+    "the realization weights, metadata, explicit start vectors, a variable mask, unused filter entries, output redirection and merged gradient estimation are "
     "exercised by the real code only; the model does not have them "
     "(the compared facts - outcome, results delivered, events - must not depend on them)",
     "the BasicOptimizer runs register the scripted optimizer with the plug-in manager of the object's private OptimizerContext",
@@ -233,6 +233,8 @@ def make_config(case, maxf="case"):
         cfg["nonlinear_constraints"].setdefault("realization_filters", [-1])
     if case.get("estimator", "mean") == "stddev":
         cfg["function_estimators"] = [{"method": "stddev"}]
+    if case.get("merge"):
+        cfg["gradient"]["merge_realizations"] = True       # one least-squares estimate over all realizations' perturbations
     if case.get("mask"):
         cfg["variables"]["mask"] = [True, False]
     if case.get("redirect"):
@@ -935,6 +937,9 @@ def _dress(case, rng):
     if basic:
         c["step"] = "basic"
         return c
+    # (the stddev estimator rejects merged estimation with a ConfigError: a configuration error, not a run)
+    if c["step"] != "evaluator" and c.get("estimator") != "stddev" and rng.random() < (0.5 if _grad_all_failed(c) else 0.25):
+        c["merge"] = True              # gradient.merge_realizations: one estimate over the perturbations of all realizations
     if rng.random() < 0.2:
         c["mask"] = True
     if rng.random() < 0.15 and c["R"] >= 1:
@@ -1300,8 +1305,9 @@ def features(case, obs):
             "nanloc": f"{case.get('nobj', 1)}obj/{case.get('nanloc', 'all')}", "excls": _excls(case) if info["decider"] == "raise" else "-",
             "weights": ("with-zero" if case.get("weights") and 0 in case["weights"] else
                         "unequal" if case.get("weights") and len(set(case["weights"])) > 1 else "equal"),
-            **{k: bool(case.get(k)) for k in ("metadata", "explicit", "repeat", "mask", "unused_filter", "redirect")},
-            "grad_all_failed_by_pmin": (f"rmin0={case['rmin'] == 0},allow_nan={case['allow_nan']}" if _grad_all_failed(case) else "-"),
+            **{k: bool(case.get(k)) for k in ("metadata", "explicit", "repeat", "mask", "unused_filter", "redirect", "merge")},
+            "grad_all_failed_by_pmin": (f"rmin0={case['rmin'] == 0},allow_nan={case['allow_nan']},merged={bool(case.get('merge'))}"
+                                        if _grad_all_failed(case) else "-"),
             "batched_budget": bool(case.get("maxf") is not None and any(r["batch"] > 1 for r in case["script"]))}
 
 
@@ -1320,7 +1326,7 @@ def shrink(case):
             if len(sc) > 1:
                 yield {**case, "nested": {**n, "scripts": n["scripts"][:i] + [sc[:-1]] + n["scripts"][i + 1:]}}
         return
-    for k in ("repeat", "metadata", "explicit", "weights", "mask", "unused_filter", "redirect"):
+    for k in ("repeat", "metadata", "explicit", "weights", "mask", "unused_filter", "redirect", "merge"):
         if case.get(k):
             yield {kk: v for kk, v in case.items() if kk != k}
     if case["step"] == "basic":
